@@ -198,9 +198,13 @@ def launch_prep(ctx, pexpect, n):
             U.os.environ = {} if osp is None else {'PATH': osp}
             rec.clear()
             cwd = rng.choice([None, '/tmp'])
+            args_before = list(args)
             try:
                 try:
                     c = pexpect.spawn(command, args, env=env, cwd=cwd, echo=echo, dimensions=dims, ignore_sighup=hup, preexec_fn=pre)
+                    if args != args_before:
+                        ctx.hit('C13/caller-args-modified', 'spawn(%r, args) changed the caller\'s argument list from %r to %r (the next launch with it gets another argv)' % (command, args_before, args),
+                                {'command': command, 'args': args_before})
                     c.closed = True
                     res = [0, [a for a in rec['args']], c.name]
                     kw = rec['kw']
